@@ -1,8 +1,8 @@
-CONSTANTS Counts = {1, 5, 6, 8, 9, 10, 16, 32, 50, 64, 68, 69, 70, 71, 128, 1000}
+CONSTANTS Counts = {1, 5, 6, 8, 9, 10, 16, 32, 50, 64, 68, 69, 70, 71, 128, 500}
   KeyAlphabet = {"a", "ab", "b", "a-b", "", "ba"}
   MaxKeys = 4
-  MatrixKeySeqs <- MKSbig
-  ValAlphabet = {"1", "12", "2", ""}
+  MatrixKeySeqs <- MKS
+  ValAlphabet = {"1", "12", "2", "", "21"}
   MaxVals = 2
 SPECIFICATION Spec
 INVARIANTS InvSize InvDistinct Emit
